@@ -460,6 +460,43 @@ theorem eval_rankMismatch {ρ : Type} (env : ρ → Val) (bv : Val) (rs rp : ρ)
     simp
   rw [this]
 
+theorem pairPasses_units (p : Str × Str) :
+    pairPasses [.and (.eq .fst (.strLit "")) (.eq .snd (.strLit ""))] (.not (.scalable .fst .snd)) p =
+      .ok (unitPairOk p) := by
+  obtain ⟨a, b⟩ := p
+  have e : "".toList = ([] : List Char) := rfl
+  cases a <;> cases b <;> simp [pairPasses, PairExpr.holds, PairExpr.eval, unitPairOk, e, sumEq]
+
+/-- the inlined verdict helper `tag_units_match_refs_units(units, refs_units)` is the model's `unitsMatch` -/
+theorem eval_unitsMatch {ρ : Type} (env : ρ → Val) (bv : Val) (ru rr : ρ) (units : List Str) (L : List (List Str))
+    (h1 : env ru = .strs units) (h2 : env rr = .strss L) :
+    eval env bv (.matchAll [.and (.eq .fst (.strLit "")) (.eq .snd (.strLit ""))] (.not (.scalable .fst .snd))
+      (.read ru) (.read rr)) = .ok (.bool (unitsMatch units L)) := by
+  have hin : ∀ r : List Str, allM ((units.zip r).map (pairPasses [.and (.eq .fst (.strLit "")) (.eq .snd (.strLit ""))]
+      (.not (.scalable .fst .snd)))) = .ok ((units.zip r).all unitPairOk) := by
+    intro r
+    have : (pairPasses [.and (.eq .fst (.strLit "")) (.eq .snd (.strLit ""))] (.not (.scalable .fst .snd))) =
+        fun p => (Except.ok (unitPairOk p) : Except Err Bool) := funext pairPasses_units
+    rw [this, allM_ok]
+  simp only [eval, h1, h2, ok_bind, pure_ok]
+  have : (fun r : List Str => allM ((units.zip r).map (pairPasses [.and (.eq .fst (.strLit "")) (.eq .snd (.strLit ""))]
+      (.not (.scalable .fst .snd))))) = fun r => (Except.ok ((units.zip r).all unitPairOk) : Except Err Bool) :=
+    funext hin
+  rw [this, allM_ok]
+  rfl
+
+theorem chain7 {α : Type} (b1 b2 b3 b4 b5 b6 b7 : Bool) (m1 m2 m3 m4 m5 m6 m7 : α) :
+    (let x7 := if b7 then [m7] else []
+     let x6 := if b6 then m6 :: x7 else x7
+     let x5 := if b5 then m5 :: x6 else x6
+     let x4 := if b4 then m4 :: x5 else x5
+     let x3 := if b3 then m3 :: x4 else x4
+     let x2 := if b2 then m2 :: x3 else x3
+     if b1 then m1 :: x2 else x2) =
+    (if b1 then [m1] else []) ++ (if b2 then [m2] else []) ++ (if b3 then [m3] else []) ++ (if b4 then [m4] else []) ++
+      (if b5 then [m5] else []) ++ (if b6 then [m6] else []) ++ (if b7 then [m7] else []) := by
+  cases b1 <;> cases b2 <;> cases b3 <;> cases b4 <;> cases b5 <;> cases b6 <;> cases b7 <;> rfl
+
 theorem chain6 {α : Type} (b1 b2 b3 b4 b5 b6 : Bool) (m1 m2 m3 m4 m5 m6 : α) :
     (let x6 := if b6 then [m6] else []
      let x5 := if b5 then m5 :: x6 else x6
@@ -516,6 +553,8 @@ theorem guards_tag (position extent : List Rat) (arrays : List DataArray) (t : T
             then [.ExtentDimensionMismatch] else []) ++
            (if !t.refs.isEmpty && ((refArrays arrays t.refs).map getDimUnits).any (fun ru => ru.length != t.units.length)
             then [.ReferenceUnitsMismatch] else []) ++
+           (if !t.refs.isEmpty && !unitsMatch t.units ((refArrays arrays t.refs).map getDimUnits)
+            then [.ReferenceUnitsIncompatible] else []) ++
            (if anyNonSi t.units then [.InvalidUnit] else [])) := by
   let env := tagEnv position extent t.units t.refs.length (refArrays arrays t.refs)
   have h1 : fires env [.not (.read .tag_position)] = .ok (t.posLen == 0) := by
@@ -554,11 +593,19 @@ theorem guards_tag (position extent : List Rat) (arrays : List DataArray) (t : T
   have h6 : fires env [.anyIn (.read .tag_units) (some .bound) (.not (.call .isSi .bound))] = .ok (anyNonSi t.units) := by
     rw [fires_one env _ _ (eval_anyNonSi env .none .tag_units t.units rfl)]
     rfl
+  have h7 : fires env [.read .tag_references,
+      .not (.matchAll [.and (.eq .fst (.strLit "")) (.eq .snd (.strLit ""))] (.not (.scalable .fst .snd))
+        (.read .tag_units) (.read .refs_units))] =
+      .ok (!t.refs.isEmpty && !unitsMatch t.units ((refArrays arrays t.refs).map getDimUnits)) := by
+    rw [fires_two env _ _ (.sized t.refs.length) _ rfl (fun _ => eval_not_ok _ _ _ _
+      (eval_unitsMatch env .none .tag_units .refs_units t.units _ rfl rfl)), hrefs]
+    rfl
   have hf := fired_cons env MsgId.NoPosition _ _ _ _ h1 (fired_cons env MsgId.PositionExtentMismatch _ _ _ _ h2
     (fired_cons env MsgId.PositionDimensionMismatch _ _ _ _ h3 (fired_cons env MsgId.ExtentDimensionMismatch _ _ _ _ h4
-    (fired_cons env MsgId.ReferenceUnitsMismatch _ _ _ _ h5 (fired_cons env MsgId.InvalidUnit _ _ _ _ h6 (fired_nil _))))))
+    (fired_cons env MsgId.ReferenceUnitsMismatch _ _ _ _ h5 (fired_cons env MsgId.ReferenceUnitsIncompatible _ _ _ _ h7
+    (fired_cons env MsgId.InvalidUnit _ _ _ _ h6 (fired_nil _)))))))
   rw [guards_check_tag, hf]
-  exact congrArg Except.ok (chain6 _ _ _ _ _ _ _ _ _ _ _ _)
+  exact congrArg Except.ok (chain7 _ _ _ _ _ _ _ _ _ _ _ _ _ _)
 
 /-! ## check_multi_tag -/
 
@@ -657,6 +704,8 @@ theorem guards_multi_tag (arrays : List DataArray) (t : MultiTag)
             then [.ExtentsDimensionMismatch] else []) ++
            (if !t.refs.isEmpty && ((refArrays arrays t.refs).map getDimUnits).any (fun ru => ru.length != t.units.length)
             then [.ReferenceUnitsMismatch] else []) ++
+           (if !t.refs.isEmpty && !unitsMatch t.units ((refArrays arrays t.refs).map getDimUnits)
+            then [.ReferenceUnitsIncompatible] else []) ++
            (if anyNonSi t.units then [.InvalidUnit] else [])) := by
   generalize hps : MtPosShape arrays t = ps at hp ⊢
   generalize hes : MtExtShape arrays t = es at he ⊢
@@ -733,10 +782,18 @@ theorem guards_multi_tag (arrays : List DataArray) (t : MultiTag)
   have h6 : fires env [.anyIn (.read .mtag_units) (some .bound) (.not (.call .isSi .bound))] = .ok (anyNonSi t.units) := by
     rw [fires_one env _ _ (eval_anyNonSi env .none .mtag_units t.units rfl)]
     rfl
+  have h7 : fires env [.read .mtag_references,
+      .not (.matchAll [.and (.eq .fst (.strLit "")) (.eq .snd (.strLit ""))] (.not (.scalable .fst .snd))
+        (.read .mtag_units) (.read .refs_units))] =
+      .ok (!t.refs.isEmpty && !unitsMatch t.units ((refArrays arrays t.refs).map getDimUnits)) := by
+    rw [fires_two env _ _ (.sized t.refs.length) _ rfl (fun _ => eval_not_ok _ _ _ _
+      (eval_unitsMatch env .none .mtag_units .refs_units t.units _ rfl rfl)), hrefs]
+    rfl
   have hf := fired_cons env MsgId.NoPositions _ _ _ _ h1 (fired_cons env MsgId.PositionsExtentsMismatch _ _ _ _ h2
     (fired_cons env MsgId.PositionsDimensionMismatch _ _ _ _ h3 (fired_cons env MsgId.ExtentsDimensionMismatch _ _ _ _ h4
-    (fired_cons env MsgId.ReferenceUnitsMismatch _ _ _ _ h5 (fired_cons env MsgId.InvalidUnit _ _ _ _ h6 (fired_nil _))))))
+    (fired_cons env MsgId.ReferenceUnitsMismatch _ _ _ _ h5 (fired_cons env MsgId.ReferenceUnitsIncompatible _ _ _ _ h7
+    (fired_cons env MsgId.InvalidUnit _ _ _ _ h6 (fired_nil _)))))))
   rw [guards_check_multi_tag, hf]
-  exact congrArg Except.ok (chain6 _ _ _ _ _ _ _ _ _ _ _ _)
+  exact congrArg Except.ok (chain7 _ _ _ _ _ _ _ _ _ _ _ _ _ _)
 
 end Nix.Validator.Lemmas
